@@ -120,6 +120,8 @@ def run(ctx):
     r23(ctx, rep, ti)
     r24(ctx, rep, ti)
     r25(ctx, rep, ti)
+    rep.rule('R2.6', 'table iterators yield their header before they read the first data row (header consultation at construction stays lazy)')
+    r26(ctx, rep, ti)
 
 
 # ------------------------------------------------------------------------ R2.1
@@ -470,3 +472,113 @@ def r25(ctx, rep, ti):
                     rep.held('R2.5', fn, construct, 'passed on' if p[1] is None or not isinstance(p[1], ast.Constant)
                              else 'literal True (sorted by the caller, see C11 R11.3)', node)
     ctx.floor('presorted_call_sites', n, 15)
+
+
+# ------------------------------------------------------------------------ R2.6
+# operators whose output header is a function of the data by documentation
+HEADER_FROM_DATA = {
+    'petl.transform.unpacks:iterunpackdict': 'the new fields are the dictionary keys found in a sample of `samplesize` rows when '
+                                             '`keys` is not given',
+}
+
+
+def r26(ctx, rep, ti):
+    """Consulting the header of a view (natural joins, record* set operations, the *all convenience functions do it
+    while the pipeline is being built) must not read data: in every table iterator the header row is yielded before the
+    first data row of any source is taken -- also in the blocking operators (sort reads and sorts its input only after
+    it has delivered the header)."""
+    from ..absint import Interp, BaseDomain, ANY
+    from ..tables import iter_state
+
+    class MustYield(BaseDomain):
+        def __init__(self):
+            self.at = {}
+
+        def entry_state(self):
+            return False
+
+        def join(self, a, b):
+            return a and b
+
+        def equal(self, a, b):
+            return a == b
+
+        def may_raise(self, s, st):
+            return {ANY}
+
+        def may_raise_expr(self, e, st):
+            return {ANY}
+
+        def may_raise_for(self, s, st):
+            return {ANY}
+
+        def rec(self, node, st):
+            self.at[id(node)] = self.at.get(id(node), True) and st
+
+        def exec_simple(self, s, st):
+            self.rec(s, st)
+            if any(isinstance(x, (ast.Yield, ast.YieldFrom)) for x in ast.walk(s)):
+                return True
+            return st
+
+        def exec_test(self, e, st):
+            self.rec(e, st)
+            return st
+
+        def enter_for(self, s, st):
+            self.rec(s, st)
+            return st
+
+    targets = []
+    for v in ctx.views.real_views():
+        if v.iter is None or v.iter_kind == 'abstract':
+            continue
+        if not any(c.fq == 'petl.util.base:Table' for c in ctx.res.mro(v.cls)):
+            continue        # values / dicts / records containers yield no header at all
+        cands = [v.iter] if v.iter.is_generator else [f for f, _ in v.iter_targets if f is not None and f.is_generator]
+        for f in cands:
+            if f not in targets:
+                targets.append(f)
+    n = 0
+    for fn in targets:
+        if not fn.module.name.startswith(('petl.transform', 'petl.util.base', 'petl.util.materialise')):
+            continue
+        if fn.fq in HEADER_FROM_DATA:
+            rep.held('R2.6', fn, 'header before data', 'reviewed exception: ' + HEADER_FROM_DATA[fn.fq], fn.node)
+            continue
+        fa, events = analysed(ctx, fn)
+        reads = []
+        for ev in events:
+            if ev.kind == 'next' and iter_state(ev.info['iter']) == 'D' and sources_of(ev.info['iter']):
+                reads.append(ev)
+            elif ev.kind == 'for' and sources_of(ev.info['iter']) and \
+                    any(a[0] == 'ITER' and a[2] == 'D' for a in ev.info['iter']):
+                reads.append(ev)
+            elif ev.kind == 'consume' and ev.info.get('arg') and \
+                    any(a[0] == 'ITER' and a[2] == 'D' and a[1] and
+                        not a[1].startswith(('gen:', 'local', '?', 'row:', 'mat:')) for a in ev.info['arg']):
+                reads.append(ev)        # (a bounded read -- islice(it, 0, buffersize) -- reads data rows all the same)
+        if not reads:
+            continue
+        # only iterators that deliver a header themselves (the first yield is not inside a data loop)
+        n += 1
+        dom = MustYield()
+        Interp(fn.node, dom).run()
+        pm = fa.parents()
+        bad = None
+        for ev in sorted(reads, key=lambda e: getattr(e.node, 'lineno', 0)):
+            cur = ev.node
+            while id(cur) in pm and id(cur) not in dom.at:
+                cur = pm[id(cur)]
+            if dom.at.get(id(cur)) is False:
+                bad = ev
+                break
+        if bad is None:
+            rep.held('R2.6', fn, 'header before data', 'the header is yielded before the first data row is read', fn.node)
+        else:
+            rep.violated('R2.6', fn, 'header before data: %s' % norm(bad.node)[:50],
+                         'data rows of the source are read (%s) before the iterator has yielded its header: looking at the '
+                         'header of this view -- which constructors of natural joins, record* set operations and the *all '
+                         'functions do -- reads (for a blocking operator: all) data rows while the pipeline is still being '
+                         'built' % norm(bad.node)[:60], bad.node)
+    ctx.floor('table_iterators_with_data_reads', n, 50)
